@@ -22,6 +22,9 @@ RULE = (
     "0<=start<end<=length; cg reversed iff the strand flipped, otherwise unchanged. "
     "Non-trivial = record path has >=2 nodes and one of: >=2 nodes merged into one interval, strand flip, haplotype contig "
     "with separated segments, >=3 consecutive reference nodes, revisit/mixed orientation. Distinct by SHA-1 of the case."
+    " Later additions: reference contigs that are tiled but not one linked path, one-character / comma / '=' "
+    "segment names, cs:Z and MD:Z among the optional fields, comment/header/path/walk and blank lines in the "
+    "graph, haplotype contigs shared between chromosomes."
 )
 ASSUMPTIONS = [
     "'-'-strand unstable inputs and contig names containing ':' are outside the stated quantifier",
